@@ -117,6 +117,12 @@ func init() {
 		funcs:   []string{"Inc", "RollingSumAt", "TotalSum", "GetBuckets", "clearBucket", "Reset"},
 		imports: []string{"CircuitModel.GoRollingPrims"}, open: []string{"CM", "CM.Go", "CM.GoRolling", "CM.GoRolling.C"}, vars: "", monad: "QM", types: rollTypes,
 	}
+	units["GoSortedDurations"] = &unit{
+		name: "GoSortedDurations", file: "faststats/rolling_percentile.go", recv: "SortedDurations", funcs: []string{"Mean", "Min", "Max", "Percentile"},
+		recvParam: "List I64",
+		imports:   []string{"CircuitModel.GoSortedDurationsPrims"}, open: []string{"CM", "CM.Go", "CM.GoSD"}, vars: "", monad: "DM",
+		types:     map[string]string{"time.Duration": "I64", "float64": "GoF64"},
+	}
 	units["GoManager"] = &unit{
 		name: "GoManager", file: "manager.go", recv: "Manager", funcs: []string{"GetCircuit", "CreateCircuit", "MustCreateCircuit"},
 		imports: []string{"CircuitModel.GoManagerPrims"}, open: []string{"CM", "CM.Go", "CM.GoManager"}, vars: "", monad: "GMM",
@@ -380,6 +386,9 @@ func (t *tr) expr(e ast.Expr) string {
 	case *ast.CallExpr:
 		return t.call(x)
 	case *ast.IndexExpr:
+		if id, ok := x.X.(*ast.Ident); ok && id.Name == t.recvVar && t.recvVar != "" && t.u.recvParam != "" {
+			return "(← goIndex recv " + t.atom(x.Index) + ")" // an element of the value receiver (out of range: Go panics)
+		}
 		if root, path, ok := flatten(x.X); ok && root.Name == t.recvVar && t.recvVar != "" && len(path) > 0 {
 			return "(← recv_" + strings.Join(path, "_") + "_at " + t.atom(x.Index) + ")" // an element of a receiver field (map or slice)
 		}
